@@ -4,10 +4,18 @@ Model: coq/theories/Model/Threaded.v ; theorems: Props/C15.v.
 Part A (correspondence): the real ThreadedFactory is driven by real threads under a deterministic schedule: a
 sys.settrace line hook pauses a thread before every source line of get_object / teardown_factory, and setup_object
 pauses inside the user code; one schedule entry = "this actor executes up to its next pause".  The same schedule is run
-by Model.Threaded.run inside Coq and the observations (logs, program counters, thread-local slots, _objects) are compared.
+by Model.Threaded.run inside Coq and the observations (logs, program counters, the locals first_failure / obj of
+teardown_factory, thread-local slots, _objects) are compared.  teardown_object raises an Exception (td_fail) or a
+BaseException that is not an Exception (td_fail_base) for chosen objects.
 Part B (scheduler level): real multi-threaded runs (tests/helpers/runner.py, nb_threads=N) of generated projects with
-per-thread session/suite fixtures, plain and generator; oracle on (thread ident, value id) pairs; the observed order of
+per-thread session/suite fixtures, plain and generator, some of whose teardown parts raise (td_raise); oracle on
+(thread ident, value id) pairs, exactly-once teardown, and which failure reaches the report; the observed order of
 accesses is replayed through the model (each access run to completion) and compared.
+Part C: thread lifetimes through the public API only, with raising teardown_object calls.
+
+The model describes teardown_factory as repaired by fixes/F21-threaded-factory-teardown-all.patch (every object is torn
+down even when teardown_object raises; the first failure is raised at the end).  On a tree without the repair the line
+table below does not match (tie broken) and the oracle reports oracle:forgotten:teardown-object-raised again.
 """
 import json
 import linecache
@@ -21,8 +29,14 @@ from lib import c_nat, c_opt, c_list
 
 LINE_CODES = {"return self._local.object": 1, "obj = self.setup_object()": 2, "self._local.object = obj": 4,
               "self._objects.append(obj)": 5, "return obj": 6}
-NOOP_LINES = {"try:", "except AttributeError:"}
-TD_CODES = {"for obj in self._objects:": 1, "self.teardown_object(obj)": 2}
+NOOP_LINES = {"try:", "except AttributeError:"}          # get_object only: merged into the following step by the model
+# teardown_factory: every line event is a step of the model (Model.Threaded.td_code); 10/11/12 = returned / raised
+# first_failure / left by a BaseException that is not an Exception
+TD_CODES = {"first_failure = None": 1, "for obj in self._objects:": 2, "try:": 3, "self.teardown_object(obj)": 4,
+            "except Exception as excp:": 5, "if first_failure is None:": 6, "first_failure = excp": 7,
+            "if first_failure is not None:": 8, "raise first_failure": 9}
+TD_WITH_OBJ = (3, 4, 5, 6, 7)                            # lines at which the model knows the loop variable
+TD_RETURNED, TD_RAISED, TD_ABORTED = 10, 11, 12
 STEP_TIMEOUT = 10
 
 
@@ -35,7 +49,15 @@ class SetupError(Exception):
 
 
 class TdError(Exception):
-    pass
+    def __init__(self, oid):
+        Exception.__init__(self, oid)
+        self.oid = oid
+
+
+class TdAbort(BaseException):          # stands for KeyboardInterrupt / SystemExit raised by a teardown_object
+    def __init__(self, oid):
+        BaseException.__init__(self, oid)
+        self.oid = oid
 
 
 class Obj(object):
@@ -104,14 +126,18 @@ class Actor(object):
     def _local_trace(self, frame, event, arg):
         if event == "line":
             text = linecache.getline(frame.f_code.co_filename, frame.f_lineno).strip()
-            if text in NOOP_LINES:
-                return self._local_trace
             if frame.f_code is self.world.get_code:
+                if text in NOOP_LINES:
+                    return self._local_trace
                 code = LINE_CODES.get(text, 99)
                 o = frame.f_locals.get("obj")
                 self.pause((code, o.id if (code in (4, 5, 6) and isinstance(o, Obj)) else 0))
             else:
-                self.pause((TD_CODES.get(text, 99), 0))
+                code = TD_CODES.get(text, 99)
+                ff = frame.f_locals.get("first_failure")
+                o = frame.f_locals.get("obj")
+                self.pause((code, None if ff is None else getattr(ff, "oid", 4999),
+                            (o.id if isinstance(o, Obj) else 4999) if code in TD_WITH_OBJ else None))
         return self._local_trace
 
     # ---- controller side
@@ -134,7 +160,7 @@ class Actor(object):
 class World(object):
     """One ThreadedFactory, n worker threads and one thread that calls teardown_factory, under a schedule."""
 
-    def __init__(self, n, setup_fail, td_fail):
+    def __init__(self, n, setup_fail, td_fail, td_fail_base=()):
         from lemoncheesecake.helpers.threading import ThreadedFactory
         world = self
         self.tls = threading.local()
@@ -143,10 +169,11 @@ class World(object):
         self.traced_codes = (self.get_code, self.td_code)
         self.setup_fail = set(map(tuple, setup_fail))
         self.td_fail = set(td_fail)
+        self.td_fail_base = set(td_fail_base)
         self.events = []          # global chronological log
         self.next_id = 0
         self.nfailed = {}
-        self.td_state = 0         # 0 not called, 3 returned, 4 raised (1/2 while inside)
+        self.td_state = None      # once teardown_factory has been left: (TD_RETURNED | TD_RAISED | TD_ABORTED, exception id, None)
 
         class Factory(ThreadedFactory):
             def setup_object(self):
@@ -165,8 +192,12 @@ class World(object):
 
             def teardown_object(self, o):
                 world.events.append(("torn", o.id))
+                if o.id in world.td_fail_base:
+                    world.events.append(("torn_raise", o.id, "base"))
+                    raise TdAbort(o.id)
                 if o.id in world.td_fail:
-                    raise TdError()
+                    world.events.append(("torn_raise", o.id, "exc"))
+                    raise TdError(o.id)
 
         self.factory = Factory()
 
@@ -183,11 +214,14 @@ class World(object):
             world.events.append(("td_call",))
             try:
                 world.factory.teardown_factory()
-            except TdError:
-                world.td_state = 4
-                world.events.append(("td_raise",))
+            except TdError as e:
+                world.td_state = (TD_RAISED, e.oid, None)
+                world.events.append(("td_raise", e.oid))
+            except TdAbort as e:
+                world.td_state = (TD_ABORTED, e.oid, None)
+                world.events.append(("td_abort", e.oid))
             else:
-                world.td_state = 3
+                world.td_state = (TD_RETURNED, None, None)
                 world.events.append(("td_return",))
 
         self.threads = [Actor(self, i, access) for i in range(n)]
@@ -206,7 +240,7 @@ class World(object):
             for x in sch:
                 if x == "M":
                     self.effective.append("M")
-                    if self.td_state in (3, 4):
+                    if self.td_state is not None:
                         continue          # teardown_factory is called once
                     self.main.step()
                 elif x == "Q":            # quiesce: every thread completes the get_object it is in
@@ -227,7 +261,9 @@ class World(object):
 
     def observe(self):
         ev = self.events
-        td = self.td_state if self.td_state else self.main.where[0]
+        td = self.td_state if self.td_state is not None else (tuple(self.main.where) + (None, None))[:3]
+        if td[0] == 0:
+            td = (0, None, None)
         return {
             "setup_calls": [e[1] for e in ev if e[0] == "setup_call"],
             "created": [[e[1], e[2]] for e in ev if e[0] == "created"],
@@ -235,7 +271,7 @@ class World(object):
             "accesses": [[e[1], e[2]] for e in ev if e[0] == "access"],
             "torn": [e[1] for e in ev if e[0] == "torn"],
             "objects": [o.id if isinstance(o, Obj) else -1 for o in self.factory._objects],
-            "td": td,
+            "td": list(td),
             "pcs": [list(a.where) for a in self.threads],
             "locals": [a.local_seen for a in self.threads],
         }
@@ -243,14 +279,18 @@ class World(object):
 
 # ----------------------------------------------------------------------------- part C: thread lifetimes (black box)
 def run_lifetimes(case):
-    """case = {"threads": [{"accesses": k, "ends_before_teardown": bool}...]}: real threads use one real ThreadedFactory through
-    its public API only; those marked so terminate, are joined, dereferenced and collected before teardown_factory is called
-    (a pool worker or an lcc.Thread that is gone when the scope ends); the others wait for the teardown and end afterwards.
-    Returns events [("created", thread, obj)], ("access", thread, obj), ("torn", obj)."""
+    """case = {"threads": [{"accesses": k, "ends_before_teardown": bool, "td_raises": bool}...]}: real threads use one real
+    ThreadedFactory through its public API only; those marked so terminate, are joined, dereferenced and collected before
+    teardown_factory is called (a pool worker or an lcc.Thread that is gone when the scope ends); the others wait for the
+    teardown and end afterwards.  teardown_object raises for the objects created by the threads marked td_raises.
+    Returns events ("created", thread, obj), ("access", thread, obj), ("torn", obj), ("torn_raise", obj),
+    ("td_return",) / ("td_raise", obj or text)."""
     import gc
     import threading
     from lemoncheesecake.helpers.threading import ThreadedFactory
     ev, lock, counter = [], threading.Lock(), [0]
+    raising = set("T%d" % i for i, t in enumerate(case["threads"]) if t.get("td_raises"))
+    bad = set()
 
     class F(ThreadedFactory):
         def setup_object(self):
@@ -258,11 +298,17 @@ def run_lifetimes(case):
                 counter[0] += 1
                 o = Obj(counter[0])
                 ev.append(("created", threading.current_thread().name, o.id))
+                if threading.current_thread().name in raising:
+                    bad.add(o.id)
             return o
 
         def teardown_object(self, obj):
             with lock:
                 ev.append(("torn", obj.id))
+                if obj.id in bad:
+                    ev.append(("torn_raise", obj.id))
+            if obj.id in bad:
+                raise TdError(obj.id)
     fac = F()
     done = threading.Event()
 
@@ -300,7 +346,14 @@ def run_lifetimes(case):
             if sum(1 for e in ev if e[0] == "access") >= want:
                 break
         time.sleep(0.001)
-    fac.teardown_factory()
+    try:
+        fac.teardown_factory()
+    except TdError as e:
+        ev.append(("td_raise", e.oid))
+    except Exception as e:
+        ev.append(("td_raise", "%s: %s" % (type(e).__name__, e)))
+    else:
+        ev.append(("td_return",))
     done.set()
     for th in stay:
         th.join(20)
@@ -320,24 +373,40 @@ def oracle_lifetimes(case, ev):
         if e[0] == "access" and created.get(e[1], [None])[0] != e[2]:
             hits.append(("lifetimes:foreign-or-new-object", "thread %s was handed object %s, it created %s" % (e[1], e[2], created.get(e[1]))))
     torn = [e[1] for e in ev if e[0] == "torn"]
+    raisers = [e[1] for e in ev if e[0] == "torn_raise"]
     for objs in created.values():
         for o in objs:
             if torn.count(o) == 0:
+                if raisers:
+                    hits.append(("lifetimes:forgotten:teardown-object-raised",
+                                 "object %s was never torn down: teardown_object raised for object %s" % (o, raisers[0])))
+                    continue
                 hits.append(("lifetimes:forgotten", "object %s (created by a thread that %s) was never torn down" % (
                     o, "ended before the teardown" if any(t["ends_before_teardown"] for i, t in enumerate(case["threads"])
                                                           if created.get("T%d" % i, [None])[0] == o) else "was still alive")))
             elif torn.count(o) > 1:
                 hits.append(("lifetimes:torn-twice", "object %s torn down %d times" % (o, torn.count(o))))
+    # what teardown_factory did at its end: returned iff nothing raised, else raised the first failure
+    ends = [e for e in ev if e[0] in ("td_return", "td_raise")]
+    if len(ends) != 1:
+        hits.append(("lifetimes:teardown-did-not-end", "teardown_factory neither returned nor raised: %s" % ends))
+    elif raisers and ends[0] != ("td_raise", raisers[0]) and list(ends[0]) != ["td_raise", raisers[0]]:
+        hits.append(("lifetimes:first-failure-not-raised",
+                     "teardown_object raised for objects %s (in this order) but teardown_factory ended with %s" % (raisers, list(ends[0]))))
+    elif not raisers and ends[0][0] != "td_return":
+        hits.append(("lifetimes:raised-without-failure", "no teardown_object raised but teardown_factory ended with %s" % list(ends[0])))
     return hits[:3]
 
 
 def gen_lifetimes(rng, tier):
     n = rng.randint(1, 6)
-    return {"threads": [{"accesses": rng.choice([0, 1, 1, 2, 3]), "ends_before_teardown": rng.random() < 0.5} for _ in range(n)]}
+    p_raise = rng.choice([0.0, 0.0, 0.3, 0.6, 1.0])
+    return {"threads": [{"accesses": rng.choice([0, 1, 1, 2, 3]), "ends_before_teardown": rng.random() < 0.5,
+                         "td_raises": rng.random() < p_raise} for _ in range(n)]}
 
 
 def run_schedule(case):
-    w = World(case["n"], case["setup_fail"], case["td_fail"])
+    w = World(case["n"], case["setup_fail"], case["td_fail"], case.get("td_fail_base", []))
     obs = w.run(case["sch"])
     case["sch"] = list(w.effective)      # "Q" entries replaced by the concrete steps they stood for
     return obs, list(w.events)
@@ -386,22 +455,33 @@ def oracle(events):
         if o not in owner:
             hits.append(("torn-unknown", "teardown_object called with something that was not created"))
     kinds = [e[0] for e in events]
-    if "td_call" in kinds:
+    if "td_call" in kinds and "td_abort" not in kinds:
+        # (a teardown_factory left by a BaseException that is not an Exception is outside the property: the repaired loop
+        #  catches Exception only, an interrupt is not swallowed; Props/C15.v C15_torn_down_after_base_exception_refuted)
         i_call = kinds.index("td_call")
-        raised = "td_raise" in kinds
+        raisers = [e[1] for e in events if e[0] == "torn_raise"]
         for t, o in created:
             if o in torn:
                 continue
             # when did the creating get_object call complete?
             done = [i for i, e in enumerate(events) if e[0] == "access" and e[1] == t and e[2] == o]
-            if raised:
-                hits.append(("forgotten:teardown-object-raised",
-                             "object %s of thread %s never torn down: teardown_object raised for another object" % (o, t)))
-            elif not done or done[0] > i_call:
+            if not done or done[0] > i_call:
                 hits.append(("forgotten:teardown-during-first-access",
                              "object %s of thread %s never torn down: teardown_factory ran during the thread's first get_object" % (o, t)))
+            elif raisers:
+                hits.append(("forgotten:teardown-object-raised",
+                             "object %s of thread %s never torn down: teardown_object raised for object %s" % (o, t, raisers[0])))
             else:
                 hits.append(("forgotten", "object %s of thread %s was never torn down" % (o, t)))
+        # what teardown_factory does at its end: returns iff no teardown_object raised, else raises the FIRST failure
+        ends = [e for e in events if e[0] in ("td_return", "td_raise")]
+        if len(ends) > 1:
+            hits.append(("teardown-ended-twice", "teardown_factory ended more than once: %s" % ends))
+        elif ends and raisers and tuple(ends[0]) != ("td_raise", raisers[0]):
+            hits.append(("first-failure-not-raised",
+                         "teardown_object raised for objects %s (in this order) but teardown_factory ended with %s" % (raisers, list(ends[0]))))
+        elif ends and not raisers and ends[0][0] != "td_return":
+            hits.append(("raised-without-failure", "no teardown_object raised but teardown_factory ended with %s" % list(ends[0])))
     return hits
 
 
@@ -417,23 +497,30 @@ def gen_case(rng, tier):
                 setup_fail.append([t, 0])
                 if rng.random() < 0.3:
                     setup_fail.append([t, 1])
-    td_fail = [rng.randrange(n)] if rng.random() < 0.12 else []
+    td_fail, td_fail_base = [], []
+    if rng.random() < 0.4:             # teardown_object raises an Exception for some objects (ids are 0..n-1 at most)
+        p = rng.choice([0.3, 0.6, 1.0])
+        td_fail = [o for o in range(n) if rng.random() < p] or [rng.randrange(n)]
+    if rng.random() < 0.07:            # ... or a BaseException that is not an Exception
+        td_fail_base = [rng.randrange(n)]
+        td_fail = [o for o in td_fail if o not in td_fail_base]
+    full = 7 * n + 5                   # lines teardown_factory executes at most: 7 per object + 5
     weights = [rng.choice([1, 1, 2, 4]) for _ in range(n)]
 
     def th():
         return rng.choices(range(n), weights)[0]
     if shape == "framework":
-        sch = [th() for _ in range(length)] + ["Q"] + ["M"] * (2 * n + 3)
+        sch = [th() for _ in range(length)] + ["Q"] + ["M"] * full
     elif shape == "racy":
         sch = []
         for _ in range(length):
             sch.append("M" if rng.random() < 0.2 else th())
-        sch = sch + ["M"] * rng.choice([0, 2 * n + 3])
+        sch = sch + ["M"] * rng.choice([0, full])
     elif shape == "prefix":
         sch = [th() for _ in range(length)]
     else:
         sch = [("M" if rng.random() < 0.1 else th()) for _ in range(length)]
-    return {"n": n, "setup_fail": setup_fail, "td_fail": td_fail, "sch": sch, "shape": shape}
+    return {"n": n, "setup_fail": setup_fail, "td_fail": td_fail, "td_fail_base": td_fail_base, "sch": sch, "shape": shape}
 
 
 # ----------------------------------------------------------------------------- Gallina
@@ -443,10 +530,11 @@ def c_actor(x):
 
 def c_obs(o):
     return ("{| o_setup_calls := %s; o_created := %s; o_failed := %s; o_accesses := %s; o_torn := %s; o_objects := %s; "
-            "o_td := %d; o_pcs := %s; o_locals := %s |}") % (
+            "o_td := %s; o_pcs := %s; o_locals := %s |}") % (
         c_list(o["setup_calls"], c_nat), c_list(o["created"], lambda p: "(%d, %d)" % tuple(p)), c_list(o["failed"], c_nat),
         c_list(o["accesses"], lambda p: "(%d, %s)" % (p[0], c_opt(p[1], c_nat))), c_list(o["torn"], c_nat),
-        c_list(o["objects"], c_nat), o["td"], c_list(o["pcs"], lambda p: "(%d, %d)" % tuple(p)),
+        c_list(o["objects"], c_nat), "(%d, %s, %s)" % (o["td"][0], c_opt(o["td"][1], c_nat), c_opt(o["td"][2], c_nat)),
+        c_list(o["pcs"], lambda p: "(%d, %d)" % tuple(p)),
         c_list(o["locals"], lambda x: c_opt(x, c_nat)))
 
 
@@ -459,16 +547,18 @@ Definition obs_eqb (a b : observation) : bool :=
   list_eqb Nat.eqb (o_failed a) (o_failed b) &&
   list_eqb (pair_eqb Nat.eqb (option_eqb Nat.eqb)) (o_accesses a) (o_accesses b) &&
   list_eqb Nat.eqb (o_torn a) (o_torn b) && list_eqb Nat.eqb (o_objects a) (o_objects b) &&
-  Nat.eqb (o_td a) (o_td b) && list_eqb nn (o_pcs a) (o_pcs b) && list_eqb (option_eqb Nat.eqb) (o_locals a) (o_locals b).
-Record case := { c_n : nat; c_sf : list (nat * nat); c_tf : list nat; c_sch : list actor; c_obs : observation }.
-Definition agrees (c : case) : bool := obs_eqb (observe (c_n c) (run (cfg_of (c_sf c) (c_tf c)) (c_sch c))) (c_obs c).
+  pair_eqb (pair_eqb Nat.eqb (option_eqb Nat.eqb)) (option_eqb Nat.eqb) (o_td a) (o_td b) &&
+  list_eqb nn (o_pcs a) (o_pcs b) && list_eqb (option_eqb Nat.eqb) (o_locals a) (o_locals b).
+Record case := { c_n : nat; c_sf : list (nat * nat); c_tf : list nat; c_tb : list nat; c_sch : list actor; c_obs : observation }.
+Definition agrees (c : case) : bool :=
+  obs_eqb (observe (c_n c) (run (cfg_of (c_sf c) (c_tf c) (c_tb c)) (c_sch c))) (c_obs c).
 """
 
 
 def representable(o):
     def ok(x):
         return isinstance(x, int) and 0 <= x < 5000
-    flat = o["setup_calls"] + o["failed"] + o["torn"] + o["objects"] + [o["td"]] + \
+    flat = o["setup_calls"] + o["failed"] + o["torn"] + o["objects"] + [x for x in o["td"] if x is not None] + \
         [x for p in o["created"] for x in p] + [x for p in o["pcs"] for x in p] + \
         [p[0] for p in o["accesses"]] + [p[1] for p in o["accesses"] if p[1] is not None] + \
         [x for x in o["locals"] if x is not None]
@@ -477,9 +567,9 @@ def representable(o):
 
 def cases_file(cases):
     body = ";\n  ".join(
-        "{| c_n := %d; c_sf := %s; c_tf := %s; c_sch := %s;\n     c_obs := %s |}" % (
+        "{| c_n := %d; c_sf := %s; c_tf := %s; c_tb := %s; c_sch := %s;\n     c_obs := %s |}" % (
             c["n"], c_list(c["setup_fail"], lambda p: "(%d, %d)" % tuple(p)), c_list(c["td_fail"], c_nat),
-            c_list(c["sch"], c_actor), c_obs(o)) for c, o in cases)
+            c_list(c.get("td_fail_base", []), c_nat), c_list(c["sch"], c_actor), c_obs(o)) for c, o in cases)
     return HEADER + "Definition cases : list case := [\n  %s\n].\n" % body + \
         "Eval vm_compute in (find_indexes (fun c => negb (agrees c)) cases).\n"
 
@@ -508,27 +598,34 @@ def shrink(case, sig):
     return cur
 
 
+GET_LINES = ["try:", "return self._local.object", "except AttributeError:", "obj = self.setup_object()",
+             "self._local.object = obj", "self._objects.append(obj)", "return obj"]
+TD_LINES = list(TD_CODES)        # in source order
+
+
 def source_shape_ok():
-    """Fail-closed: the line tables above must name every line of the two traced functions."""
+    """Fail-closed: the code lines (comments and the docstring apart) of the two traced functions must be exactly the modelled ones."""
+    import ast
     import inspect
+    import textwrap
     from lemoncheesecake.helpers.threading import ThreadedFactory
     bad = []
-    for fn, table in ((ThreadedFactory.get_object, set(LINE_CODES) | NOOP_LINES), (ThreadedFactory.teardown_factory, set(TD_CODES))):
-        src = inspect.getsource(fn)
-        import ast, textwrap
-        tree = ast.parse(textwrap.dedent(src))
-        body = tree.body[0].body
-        lines = textwrap.dedent(src).split("\n")
-        first = body[1].lineno if (isinstance(body[0], ast.Expr) and isinstance(getattr(body[0], "value", None), ast.Constant)) else body[0].lineno
-        for ln in lines[first - 1:]:
-            t = ln.strip()
-            if t and t not in table:
-                bad.append("%s: %r" % (fn.__name__, t))
+    for fn, want in ((ThreadedFactory.get_object, GET_LINES), (ThreadedFactory.teardown_factory, TD_LINES)):
+        src = textwrap.dedent(inspect.getsource(fn))
+        body = ast.parse(src).body[0].body
+        has_doc = isinstance(body[0], ast.Expr) and isinstance(getattr(body[0], "value", None), ast.Constant)
+        first = body[1].lineno if has_doc else body[0].lineno
+        seen = [ln.strip() for ln in src.split("\n")[first - 1:] if ln.strip() and not ln.strip().startswith("#")]
+        if seen != want:
+            bad.append("%s: code lines %r are not the modelled ones %r" % (fn.__name__, seen, want))
     return bad
 
 
-WITNESS_INFLIGHT = {"n": 1, "setup_fail": [], "td_fail": [], "sch": [0, 0, 0, 0, "M", "M", 0, 0, 0], "shape": "witness"}
-WITNESS_RAISE = {"n": 2, "setup_fail": [], "td_fail": [0], "sch": [0] * 7 + [1] * 7 + ["M"] * 6, "shape": "witness"}
+# Props/C15.v sch_inflight (open finding) and sch_raise with enough steps of teardown_factory to reach its end (fixed by F21:
+# on the repaired code both objects are torn down and the failure of object 0 is raised at the end)
+WITNESS_INFLIGHT = {"n": 1, "setup_fail": [], "td_fail": [], "td_fail_base": [], "sch": [0, 0, 0, 0, "M", "M", "M", 0, 0, 0, "M"],
+                    "shape": "witness"}
+WITNESS_RAISE = {"n": 2, "setup_fail": [], "td_fail": [0], "td_fail_base": [], "sch": [0] * 7 + [1] * 7 + ["M"] * 14, "shape": "witness"}
 
 
 # ----------------------------------------------------------------------------- part B: per-thread fixtures in real runs
@@ -549,13 +646,19 @@ def gen_project(rng, tier):
             used = [f["name"] for f in fixtures if rng.random() < 0.7]
             tests.append({"name": "t%d_%d" % (s, k), "uses": used})
         suites.append({"name": "s%d" % s, "tests": tests})
-    return {"nb_threads": nb_threads, "fixtures": fixtures, "suites": suites, "td_raise": [], "seed": rng.randrange(10 ** 6)}
+    td_raise = {}
+    if rng.random() < 0.6:             # the teardown part (after the yield) of some generator fixtures raises
+        for f in fixtures:
+            if f["generator"] and rng.random() < 0.7:
+                td_raise[f["name"]] = rng.choice(["first", "all", "odd", "second"])
+    return {"nb_threads": nb_threads, "fixtures": fixtures, "suites": suites, "td_raise": td_raise, "seed": rng.randrange(10 ** 6)}
 
 
 def oracle_project(spec, res):
     """res["events"] recorded by the fixtures and tests of a real run, in real-time order:
     ["setup", fixture, thread, value] / ["use", fixture, scope_key, thread, value, test] / ["teardown", fixture, thread, value]
-    / ["teardown_raise", fixture]."""
+    / ["teardown_raise", fixture, thread, value]; res["error_logs"]: the error log messages of the report (an exception raised by
+    a fixture teardown is logged with its text, which names the value)."""
     hits = []
     ev = res["events"]
     fx = {f["name"]: f for f in spec["fixtures"]}
@@ -595,6 +698,21 @@ def oracle_project(spec, res):
                              "a value of per-thread fixture %s was never torn down: the teardown of another thread's value raised" % name))
             else:
                 hits.append(("fixture:forgotten", "a value of fixture %s was never torn down" % name))
+    # which failure reaches the report: for every scope instance of a fixture, the FIRST teardown that raised, no other one
+    logs = res.get("error_logs")
+    if logs is not None:
+        by_instance = {}
+        for e in ev:
+            if e[0] == "teardown_raise" and len(e) >= 4:
+                by_instance.setdefault((e[1], keyof.get((e[1], e[3]))), []).append(e[3])
+        for (name, key), vals in sorted(by_instance.items(), key=str):
+            shown = [v for v in vals if any("<%d>" % v in m for m in logs)]
+            if vals[0] not in shown:
+                hits.append(("fixture:first-teardown-failure-lost",
+                             "fixture %s (scope %s): the first teardown that raised is not the failure in the report" % (name, key)))
+            elif len(shown) > 1:
+                hits.append(("fixture:later-teardown-failure-reported",
+                             "fixture %s (scope %s): %d teardown failures in the report, expected the first one only" % (name, key, len(shown))))
     last_use = {}
     for i, e in enumerate(ev):
         if e[0] == "use":
@@ -606,8 +724,9 @@ def oracle_project(spec, res):
 
 
 def model_cases_for_project(spec, res):
-    """One model case per (fixture, scope instance): the observed order of accesses, each run to completion, then teardown;
-    compared on who received which value (values numbered by first appearance) and on the multiset of torn-down values."""
+    """One model case per (fixture, scope instance): the observed order of accesses, each run to completion, then teardown
+    (with teardown_object raising for the values whose teardown raised in the real run); compared on who received which
+    value (values numbered by first appearance), on the multiset of torn-down values and on whether teardown_factory raised."""
     ev = res["events"]
     fx = {f["name"]: f for f in spec["fixtures"]}
     groups = {}
@@ -626,11 +745,13 @@ def model_cases_for_project(spec, res):
                 created.append([t, vid[e[4]]])
             sch += [t] * (7 if first else 2)
             accesses.append([t, vid[e[4]]])
-        sch += ["M"] * (2 * len(ths) + 3)
-        torn = None
-        if fx[name]["generator"] and name not in spec.get("td_raise", []):
+        sch += ["M"] * (7 * len(ths) + 5)
+        torn, tf = None, []
+        if fx[name]["generator"]:
             torn = [vid.get(e[3], 4999) for e in ev if e[0] == "teardown" and e[1] == name and e[3] in vid]
-        out.append({"n": len(ths), "sch": sch, "accesses": accesses, "created": created, "torn": torn, "what": [name, key]})
+            tf = [vid[e[3]] for e in ev if e[0] == "teardown_raise" and e[1] == name and len(e) >= 4 and e[3] in vid]
+        out.append({"n": len(ths), "sch": sch, "accesses": accesses, "created": created, "torn": torn, "tf": tf,
+                    "what": [name, key]})
     return out
 
 
@@ -641,20 +762,22 @@ Definition nn := pair_eqb Nat.eqb Nat.eqb.
 Fixpoint insert (x : nat) (l : list nat) : list nat :=
   match l with [] => [x] | y :: r => if Nat.leb x y then x :: l else y :: insert x r end.
 Definition sort (l : list nat) := fold_right insert [] l.
-Definition agrees (c : list actor * (list (nat * nat) * list (nat * nat) * option (list nat))) : bool :=
-  let s := run no_failure (fst c) in
+(* tf: the values whose teardown raised; teardown_factory ends by raising iff tf is not empty *)
+Definition agrees (c : list actor * list nat * (list (nat * nat) * list (nat * nat) * option (list nat))) : bool :=
+  let s := run (cfg_of [] (snd (fst c)) []) (fst (fst c)) in
   let '(acc, cr, tn) := snd c in
   list_eqb (pair_eqb Nat.eqb (option_eqb Nat.eqb)) (rev (accesses s)) (map (fun p => (fst p, Some (snd p))) acc) &&
   list_eqb nn (rev (created s)) cr &&
-  match tn with Some l => list_eqb Nat.eqb (sort (torn s)) (sort l) | None => true end.
+  match tn with Some l => list_eqb Nat.eqb (sort (torn s)) (sort l) | None => true end &&
+  match td s, snd (fst c) with TdDone, [] => true | TdRaised e, _ :: _ => existsb (Nat.eqb e) (snd (fst c)) | _, _ => false end.
 """
 
 
 def cases_file_b(cases):
     pp = lambda l: c_list(l, lambda p: "(%d, %d)" % tuple(p))
-    body = ";\n  ".join("(%s, (%s, %s, %s))" % (c_list(c["sch"], c_actor), pp(c["accesses"]), pp(c["created"]),
-                                                  c_opt(c["torn"], lambda l: c_list(l, c_nat))) for c in cases)
-    return HEADER_B + "Definition cases : list (list actor * (list (nat * nat) * list (nat * nat) * option (list nat))) := [\n  %s\n].\n" % body + \
+    body = ";\n  ".join("(%s, %s, (%s, %s, %s))" % (c_list(c["sch"], c_actor), c_list(c.get("tf", []), c_nat), pp(c["accesses"]),
+                                                      pp(c["created"]), c_opt(c["torn"], lambda l: c_list(l, c_nat))) for c in cases)
+    return HEADER_B + "Definition cases : list (list actor * list nat * (list (nat * nat) * list (nat * nat) * option (list nat))) := [\n  %s\n].\n" % body + \
         "Eval vm_compute in (find_indexes (fun c => negb (agrees c)) cases).\n"
 
 
@@ -669,14 +792,20 @@ def check(run):
     ]
     run.assume += ["a thread executes one get_object of a factory at a time (setup_object does not re-enter get_object)",
                    "teardown_factory is called once per factory (ScheduledFixtures._teardown_fixture deletes the result)",
-                   "C15_torn_down_exactly_once: no thread is between the return of setup_object and the append when "
-                   "teardown_factory returns (guaranteed by the scheduler: the teardown task depends on every test of the scope)"]
+                   "C15_torn_down_exactly_once: from the end of the loop of teardown_factory until it returns or raises, no thread is "
+                   "between the return of setup_object and the append (guaranteed by the scheduler: the teardown task depends on "
+                   "every test of the scope; C15_torn_down_exactly_once_alone is that situation). No hypothesis on teardown_object "
+                   "raising Exceptions any more (repair F21)",
+                   "a teardown_object raising a BaseException that is not an Exception (KeyboardInterrupt, SystemExit) leaves "
+                   "teardown_factory at once, by design of the repair (`except Exception`): such runs are modelled and compared "
+                   "(TdAborted) but exactly-once teardown is not demanded of them"]
     run.prove(extra_targets=["theories/Base/Util.vo", "theories/Model/Threaded.vo"])
     bad_shape = source_shape_ok()
     if bad_shape:
         run.tie_broken("source lines of ThreadedFactory.get_object/teardown_factory are not the modelled ones", detail=bad_shape)
 
-    # ---- known-finding witnesses, replayed on the real code on every run
+    # ---- witnesses of the open known finding (in flight) and of the finding fixed by F21 (teardown_object raises), replayed on
+    # the real code on every run: the second one must be clean on the repaired code and is a violation again without the repair
     for w, sig in ((WITNESS_INFLIGHT, "forgotten:teardown-during-first-access"), (WITNESS_RAISE, "forgotten:teardown-object-raised")):
         try:
             obs, ev = run_schedule(w)
@@ -739,6 +868,13 @@ def check(run):
             run.count("with_setup_failure")
         if case["td_fail"]:
             run.count("with_teardown_failure")
+            if len([e for e in ev if e[0] == "torn_raise"]) >= 2:
+                run.count("with_two_or_more_teardown_failures")
+            if any(e[0] == "td_raise" for e in ev) and len([e for e in ev if e[0] == "torn"]) >= 2:
+                run.nontrivial.add("raise:" + json.dumps(case, sort_keys=True))
+                run.count("teardown_factory_raised_after_tearing_down_2_or_more")
+        if any(e[0] == "td_abort" for e in ev):
+            run.count("teardown_left_by_base_exception")
         for h in oracle(ev):
             if any(x["signature"] == "oracle:" + h[0] for x in run.oracle_hits):
                 continue
@@ -768,21 +904,29 @@ def check(run):
         run.count("project_threads_with_own_value", threads_used)
         if threads_used >= 2:
             run.nontrivial.add("B:" + json.dumps(spec, sort_keys=True))
+        if any(e[0] == "teardown_raise" for e in res["events"]):
+            run.count("projects_with_raising_fixture_teardown")
         for h in oracle_project(spec, res):
+            if any(x["signature"] == "oracle:" + h[0] for x in run.oracle_hits):
+                continue
             run.violation("oracle:" + h[0], h[1], {"part": "B", "spec": spec, "events": res["events"][:200]})
         if res.get("report_failures"):
             run.tie_broken("generated project did not pass", case=spec, detail=res["report_failures"][:5])
         cases_b += [(spec, c) for c in model_cases_for_project(spec, res)]
         if i < 1:
             run.sample({"project": spec, "events_head": res["events"][:12]})
-    # the teardown-raises finding, observed through the scheduler
+    # the teardown-raises finding (fixed by F21), observed through the scheduler: must be clean on the repaired code
     spec = {"nb_threads": 2, "fixtures": [{"name": "fx0", "scope": "session", "generator": True}],
             "suites": [{"name": "s0", "tests": [{"name": "t0_%d" % k, "uses": ["fx0"]} for k in range(6)]}],
             "td_raise": ["fx0"], "barrier": 2, "seed": 1}
     try:
         res = run_project(spec)
+        run.evaluations += 1
         for h in oracle_project(spec, res):
+            if any(x["signature"] == "oracle:" + h[0] for x in run.oracle_hits):
+                continue
             run.violation("oracle:" + h[0], h[1], {"part": "B", "spec": spec, "events": res["events"][:200]})
+        cases_b += [(spec, c) for c in model_cases_for_project(spec, res)]
     except Exception as e:
         run.tie_broken("real multi-threaded run failed", case=spec, detail=str(e)[-1500:])
 
@@ -806,13 +950,15 @@ def check(run):
                     run.tie_broken("model replay of the accesses of a real run = observed values", case=c, impl=spec)
     run.coverage["rule"] = (
         "C: real threads using one real ThreadedFactory through its public API, some of them ended, joined and collected before "
-        "teardown_factory (exactly-once teardown of every created object, one object per thread); non-trivial = both kinds present.  "
+        "teardown_factory, teardown_object raising for the objects of some threads (exactly-once teardown of every created "
+        "object, one object per thread, the first failure is what teardown_factory raises); non-trivial = both kinds present.  "
         "A: seeded schedules (1-8 threads; shapes: framework = random interleaving of first accesses then teardown with "
         "everybody idle, racy = teardown_factory interleaved with first accesses, prefix/random) with random setup_object / "
-        "teardown_object failures, executed by real threads on the real ThreadedFactory paused before every source line, and by "
+        "teardown_object failures (Exception for any subset of the objects; sometimes a BaseException), executed by real threads on the real ThreadedFactory paused before every source line, and by "
         "Model.Threaded.run inside Coq; non-trivial = at least two threads created an object, some access was a reuse and "
-        "teardown tore something down.  B: generated projects with per-thread session/suite fixtures (plain and generator) run "
-        "by the real runner on N threads; non-trivial = at least two threads got their own value")
+        "teardown tore something down.  B: generated projects with per-thread session/suite fixtures (plain and generator, "
+        "teardown parts raising for the first / every / every second value) run by the real runner on N threads; non-trivial = "
+        "at least two threads got their own value")
 
 
 def replay(path):
